@@ -51,6 +51,18 @@ class Cond:
             return Cond(t[1]).ev(asg) and Cond(t[2]).ev(asg)
         return Cond(t[1]).ev(asg) or Cond(t[2]).ev(asg)
 
+    def val(self, asg):
+        """text the expression's VALUE prints as: variables hold 'T<name>' when truthy and '' when falsy"""
+        t = self.t
+        if t[0] == 'var':
+            return ('T' + t[1]) if asg[t[1]] else ''
+        if t[0] == 'not':
+            return 'False' if Cond(t[1]).ev(asg) else 'True'
+        l = Cond(t[1])
+        if t[0] == 'and':
+            return Cond(t[2]).val(asg) if l.ev(asg) else l.val(asg)
+        return l.val(asg) if l.ev(asg) else Cond(t[2]).val(asg)
+
     def vars(self):
         t = self.t
         if t[0] == 'var':
@@ -87,6 +99,8 @@ def node_src(n):
         return s + '{% endfor %}'
     if k == 'tern':
         return '{{ "%s" if %s else "%s" }}' % (n[2], n[1].src(), n[3])
+    if k == 'emit':
+        return '{{ %s }}' % n[1].src()
     if k == 'break':
         return '{% break %}'
     if k == 'continue':
@@ -126,6 +140,8 @@ def run_ref(body, asg, lens, out):
                 run_ref(n[3], asg, lens, out)
         elif k == 'tern':
             out.append(n[2] if n[1].ev(asg) else n[3])
+        elif k == 'emit':
+            out.append(n[1].val(asg))
         elif k == 'break':
             raise BreakLoop()
         elif k == 'continue':
@@ -152,9 +168,29 @@ def prog_vars(body):
                     a, b2 = prog_vars(part)
                     cs |= a
                     ls |= b2
-        elif n[0] == 'tern':
+        elif n[0] in ('tern', 'emit'):
             cs |= n[1].vars()
     return cs, ls
+
+
+def expression_family(tier):
+    """short-circuit expressions as printed VALUES and as conditions (the operators the constant folder re-implements)"""
+    v = lambda n: ('var', n)
+    shapes = [
+        ('and', v('c1'), v('c2')), ('or', v('c1'), v('c2')),
+        ('or', ('and', v('c1'), v('c2')), v('c3')), ('and', ('or', v('c1'), v('c2')), v('c3')),
+        ('or', v('c1'), ('and', v('c2'), v('c3'))), ('and', v('c1'), ('or', v('c2'), v('c3'))),
+        ('and', ('not', v('c1')), v('c2')), ('or', ('and', v('c1'), ('not', v('c2'))), v('c3')),
+        ('or', ('and', v('c1'), v('c2')), ('and', v('c3'), v('c4'))), ('and', ('or', v('c1'), v('c2')), ('or', v('c3'), v('c4'))),
+        ('or', ('or', v('c1'), v('c2')), v('c3')), ('and', ('and', v('c1'), v('c2')), v('c3')),
+        ('not', ('and', v('c1'), v('c2'))), ('not', ('or', v('c1'), ('not', v('c2')))),
+    ]
+    progs = []
+    for sh in shapes:
+        c = Cond(sh)
+        progs.append([('emit', c), ('text', '|')])
+        progs.append([('if', [(c, [('text', 'T')])], [('text', 'F')]), ('text', '|')])
+    return [dict(body=b, src=body_src(b)) for b in progs]
 
 
 def family(tier):
@@ -232,7 +268,7 @@ def exec_bytecode(instrs, max_steps=4000):
             def truth(v):
                 """-> list of (bool outcome, asg') for a stack value"""
                 if v[0] == 'bool':
-                    _, var, neg = v
+                    _, var, neg = v[:3]
                     if var in asg:
                         return [(asg[var] != neg, asg)]
                     return [(True != neg, dict(asg, **{var: True})), (False != neg, dict(asg, **{var: False}))]
@@ -243,7 +279,7 @@ def exec_bytecode(instrs, max_steps=4000):
                 raise Unsupported('truth of %r' % (v,))
             if op == 'Lookup':
                 if arg.startswith('c'):
-                    st = st + [('bool', arg, False)]
+                    st = st + [('bool', arg, False, False)]
                 elif arg.startswith('l'):
                     st = st + [('list', arg)]
                 else:
@@ -256,13 +292,30 @@ def exec_bytecode(instrs, max_steps=4000):
                 v = st[-1]
                 if v[0] != 'bool':
                     raise Unsupported('Not on %r' % (v,))
-                st = st[:-1] + [('bool', v[1], not v[2])]
+                st = st[:-1] + [('bool', v[1], not v[2], True)]
                 pc += 1
             elif op == 'EmitRaw':
                 out = out + [arg]
                 pc += 1
             elif op == 'Emit':
                 v = st[-1]
+                if v[0] == 'bool':
+                    # the value of a condition variable ('T<name>' / '') or of its negation (True / False)
+                    outcomes = truth(v)
+                    alts = []
+                    for val, a2 in outcomes:
+                        if v[3]:
+                            text = 'True' if val else 'False'
+                        else:
+                            text = ('T' + v[1]) if val else ''
+                        alts.append((text, a2))
+                    for text, a2 in alts[1:]:
+                        work.append((pc + 1, st[:-1], out + [text], a2, lens, loops))
+                    out = out + [alts[0][0]]
+                    asg = alts[0][1]
+                    st = st[:-1]
+                    pc += 1
+                    continue
                 if v[0] != 'const':
                     raise Unsupported('Emit of %r' % (v,))
                 out = out + [str(v[1])]
@@ -377,16 +430,16 @@ def check_program(p, instrs):
 
 
 def context_of(asg, lens):
-    ctx = dict(asg)
+    ctx = {v: (('T' + v) if t else '') for v, t in asg.items()}
     for l, n in lens.items():
         ctx[l] = list(range(n))
     return ctx
 
 
-def run_flow(prop, tier, seed, run_tool):
+def run_flow(prop, tier, seed, run_tool, fam_fn=None):
     t0 = time.time()
     ev = dict(violations=[], problems=[], coverage={})
-    fam = family(tier)
+    fam = (fam_fn or family)(tier)
     for i, p in enumerate(fam):
         p['id'] = i
     dumps = {d['id']: d for d in run_tool('dump', [dict(id=p['id'], src=p['src']) for p in fam], timeout=600)}
